@@ -30,7 +30,7 @@ func init() {
 			"the IdP checks endpoint and pre-existing parameters, SAMLRequest inflating to exactly the document, RelayState presence and value, SigAlg naming the algorithm and the signature verifying with crypto/rsa or crypto/ecdsa over SAMLRequest=..[&RelayState=..]&SigAlg=.. rebuilt from the raw URL octets under the published certificate; distinct = shape hash (builder, relay class, endpoint, key config, algorithm, outcome)",
 		Directed:   c14Directed,
 		Run:        c14Run,
-		MustHit:    []string{"builder=BuildAuthURLRedirect", "builder=BuildLogoutURLRedirect", "builder=BuildAuthURL", "builder=AuthRedirect", "relay_absent", "relay_with_space", "relay_with_reserved", "endpoint_with_query", "signed_redirect", "unsigned_redirect", "ec_signer", "unsupported_algorithm_configured", "decorated_document"},
+		MustHit:    []string{"builder=BuildAuthURLRedirect", "builder=BuildLogoutURLRedirect", "builder=BuildAuthURL", "builder=AuthRedirect", "relay_absent", "relay_with_space", "relay_with_reserved", "endpoint_with_query", "signed_redirect", "unsigned_redirect", "ec_signer", "unsupported_algorithm_configured", "decorated_document", "second_redirect_on_same_sp"},
 		RandomRuns: map[string]int{"quick": 6000, "thorough": 50000},
 	})
 }
@@ -59,9 +59,19 @@ func c14Run(r *core.Run) {
 	decor := t.Int(5, "c14.decor") // caller-supplied document: tokens outside the root element
 	o := DrawOut(r, 0, true)
 	o.Cfg.SignRequests = signReq
-	if !o.Build() {
+	if !o.PreHistory(r) || !o.Build() {
 		return
 	}
+	c14Measure(r, o, builder, relay, signReq, decor)
+	if !r.Failed() && r.Harness == "" && t.Int(3, "c14.again") == 1 {
+		// the same SP produces a second redirect (other relay state): nothing may accumulate
+		r.Fault("second_redirect_on_same_sp")
+		c14Measure(r, o, builder, c14Relays[t.Int(len(c14Relays), "c14.relay2")], signReq, decor)
+	}
+}
+
+func c14Measure(r *core.Run, o *Out, builder, relay string, signReq bool, decor int) {
+	t := r.Tape
 	sp := o.Node.SP
 	r.Probe("builder=" + builder)
 	switch {
